@@ -57,6 +57,8 @@ def replay(rec, case):
     from ..lib import BIC
     i = case["input"]
     origin = i.get("origin", "replay")
+    if "cross-class" in origin:
+        dims.cross_class_touch(i["text"])
     if origin == "hostile-registry":
         hostile_registry(rec)
         return
@@ -92,6 +94,11 @@ def shard_base(arg):
         for kind, t in gens.length_variants(base, filler="X", upto=14):
             check_bic(rec, t, strict, f"length:{kind}")
             rec.case("length-" + kind, (t, strict))
+        for i, ch, t in gens.single_insertions(base, alphabet, positions=sorted({0, 4, 6, 8, len(base)})):
+            w = check_bic(rec, t, strict, "insertion")
+            rec.evals += 1
+            rec.nt.add(hash((t, strict)))
+            rec.classes["insertion-accepted" if w else "insertion-rejected"] += 1
         for ins in ("-", " ", "\n", "a", "0", "\u0663", "\u00df"):
             for i in range(len(base) + 1):
                 t = base[:i] + ins + base[i:]
@@ -123,14 +130,17 @@ def shard_base(arg):
 def shard_countries(arg):
     first, = arg
     rec = Rec()
+    from .. import dims
     extra = ["\u00df", "\u0131", "\u017f", "\u212a", "\uff21", "\u0410", "\u0395", "\u0663", "1", "0", "-", " "]
     pool = list(ASCII_UPPER) + [c.lower() for c in ASCII_UPPER] + extra
     for second in pool:
         cc = first + second
         for tmpl in ("GENO%sM1GLS", "A1B2%s2A"):
             t = tmpl % cc
+            if tmpl.startswith("GENO"):
+                dims.cross_class_touch(t)        # the same text seen as IBAN / BBAN first
             for strict in (False, True):
-                w = check_bic(rec, t, strict, "country")
+                w = check_bic(rec, t, strict, "country" if not tmpl.startswith("GENO") else "country-after-cross-class-touch")
                 rec.case("country-accepted" if w else "country-rejected", (t, strict),
                          {"text": t, "strict": strict} if second in "Zz\u0131" else None)
     rec.exhaustive.append("all 676 two-letter country codes (upper and lower case) in 8- and 11-character BICs, both modes")
@@ -252,6 +262,6 @@ def run(ctx):
     if not ctx.quick:
         from ..engines import fuzz
         fuzz.run_campaign(ctx.rec, "bic-c04", 150000, ctx.seed, ctx.prop)   # secondary engine: coverage-guided, oracle inside
-    ctx.require_classes("ws-extreme", "token-prefix", "argform-userstr", "argform-own-object", "hostile-registry",
+    ctx.require_classes("insertion-accepted", "insertion-rejected", "ws-extreme", "token-prefix", "argform-userstr", "argform-own-object", "hostile-registry",
                         "base-accepted", "replace-ascii", "replace-nonascii", "country-accepted", "country-rejected",
                         "length-trunc", "hyp-near", "hyp-text", "registry-accepted")
